@@ -1205,15 +1205,92 @@ func (fr *Frame) execSelect(in *ssa.Select, st *State) {
 	fr.env[in] = Val{Fs: vals}
 }
 
-// localByName finds the value of source-level local `name` as seen at block `at`.
+// localByName finds the value of source-level local `name` as seen at the entry of block `at`
+// (at == nil: function exit / call sites, where only parameters - at their entry value - are visible).
+// The reaching definition is found the way SSA renaming does: walk the dominator chain upwards from
+// `at`; in `at` itself only phis at its head count; in a dominating block the last definition event
+// (phi for the variable, or a DebugRef to it) gives the value.
 func (fr *Frame) localByName(name string, at *ssa.BasicBlock, st *State) (Val, types.Type, bool) {
 	fn := fr.fn
+	if at == nil {
+		for _, p := range fn.Params {
+			if p.Name() == name {
+				return fr.env[p], p.Type(), true
+			}
+		}
+		return fr.freeVarByName(name, st)
+	}
+	// which object does `name` denote at this point?
+	var obj types.Object
+	if pos := fr.posOfBlock(at); pos.IsValid() && fn.Pkg != nil {
+		if sc := fn.Pkg.Pkg.Scope().Innermost(pos); sc != nil {
+			_, obj = sc.LookupParent(name, pos)
+		}
+	}
+	info := fr.fc.eng.typesInfo(fn)
+	matches := func(d *ssa.DebugRef) bool {
+		id, ok := d.Expr.(*ast.Ident)
+		if !ok || id.Name != name {
+			return false
+		}
+		if obj != nil && info != nil {
+			if o := info.ObjectOf(id); o != nil && o != obj {
+				return false
+			}
+		}
+		return true
+	}
+	for b := at; b != nil; b = b.Idom() {
+		var found ssa.Value
+		isAddr := false
+		for _, in := range b.Instrs {
+			switch x := in.(type) {
+			case *ssa.Phi:
+				if x.Comment == name {
+					found, isAddr = x, false
+				}
+			case *ssa.DebugRef:
+				if b != at && matches(x) {
+					found, isAddr = x.X, x.IsAddr
+				}
+			case *ssa.Alloc:
+				if b != at && x.Comment == name {
+					found, isAddr = x, true
+				}
+			}
+		}
+		if found == nil {
+			continue
+		}
+		if phi, ok := found.(*ssa.Phi); ok {
+			if ov, ok := fr.phiOv[phi]; ok {
+				return ov, phi.Type(), true
+			}
+		}
+		if _, have := fr.env[found]; !have {
+			switch found.(type) {
+			case *ssa.Const, *ssa.Global, *ssa.Function, *ssa.Parameter, *ssa.FreeVar:
+			default:
+				return Val{}, nil, false
+			}
+		}
+		v := fr.val(found)
+		if isAddr {
+			pt := found.Type().Underlying().(*types.Pointer).Elem()
+			return fr.fc.load(st, v.T, pt), pt, true
+		}
+		return v, found.Type(), true
+	}
 	for _, p := range fn.Params {
 		if p.Name() == name {
 			return fr.env[p], p.Type(), true
 		}
 	}
-	for _, fv := range fn.FreeVars {
+	return fr.freeVarByName(name, st)
+}
+
+func (fr *Frame) freeVarByName(name string, st *State) (Val, types.Type, bool) {
+	for _, fv := range fr.fn.FreeVars {
 		if fv.Name() == name {
 			v := fr.val(fv)
 			// captured by reference: pointer to the variable
@@ -1223,74 +1300,20 @@ func (fr *Frame) localByName(name string, at *ssa.BasicBlock, st *State) (Val, t
 			return v, fv.Type(), true
 		}
 	}
-	// phi at this block (or override)
-	if at != nil {
-		for _, in := range at.Instrs {
-			if phi, ok := in.(*ssa.Phi); ok && phi.Comment == name {
-				if ov, ok := fr.phiOv[phi]; ok {
-					return ov, phi.Type(), true
-				}
-				if v, ok := fr.env[phi]; ok {
-					return v, phi.Type(), true
-				}
-			}
+	return Val{}, nil, false
+}
+
+func (fr *Frame) posOfBlock(b *ssa.BasicBlock) token.Pos {
+	if l := fr.loopOf[b]; l != nil && l.minPos.IsValid() {
+		return l.minPos
+	}
+	for _, in := range b.Instrs {
+		if _, isDbg := in.(*ssa.DebugRef); isDbg {
+			continue
+		}
+		if in.Pos().IsValid() {
+			return in.Pos()
 		}
 	}
-	// DebugRef / Alloc scan
-	var best ssa.Value
-	var bestAddr bool
-	var bestBlk *ssa.BasicBlock
-	bestIdx := -1
-	for _, b := range fn.Blocks {
-		for i, in := range b.Instrs {
-			var cand ssa.Value
-			isAddr := false
-			switch in := in.(type) {
-			case *ssa.DebugRef:
-				if id, ok := in.Expr.(*ast.Ident); ok && id.Name == name {
-					cand = in.X
-					isAddr = in.IsAddr
-				}
-			case *ssa.Alloc:
-				if in.Comment == name {
-					cand = in
-					isAddr = true
-				}
-			}
-			if cand == nil {
-				continue
-			}
-			if _, have := fr.env[cand]; !have {
-				if _, isC := cand.(*ssa.Const); !isC {
-					continue
-				}
-			}
-			if at != nil && !(b.Dominates(at)) {
-				continue
-			}
-			if at != nil && b == at {
-				// only phis at the head of `at` count (handled above)
-				if _, isPhi := cand.(*ssa.Phi); !isPhi {
-					continue
-				}
-			}
-			if bestBlk == nil || bestBlk.Dominates(b) && (bestBlk != b || i > bestIdx) {
-				best, bestAddr, bestBlk, bestIdx = cand, isAddr, b, i
-			}
-		}
-	}
-	if best == nil {
-		return Val{}, nil, false
-	}
-	if phi, ok := best.(*ssa.Phi); ok {
-		if ov, ok := fr.phiOv[phi]; ok {
-			return ov, phi.Type(), true
-		}
-	}
-	v := fr.val(best)
-	if bestAddr {
-		pt := best.Type().Underlying().(*types.Pointer).Elem()
-		return fr.fc.load(st, v.T, pt), pt, true
-	}
-	return v, best.Type(), true
+	return token.NoPos
 }
